@@ -989,6 +989,104 @@ theorem adaptive_euler_model_global_error (C : Ctl ℝ) (a : ℝ) (ha : a ≤ 0)
 
 end eulerGlobal
 
+/-! ### the generic adaptive loop with the Euler step-doubling estimate (real numbers) -/
+
+section richardsonGlobal
+open Real
+
+/-- the Euler-Richardson estimate on `u' = a u` -/
+theorem eulerRichardson_linear (a : ℝ) (us : List ℝ) (t h : ℝ) :
+    eulerRichardson (linear a) us t h
+      = (us.map (fun u => (1 + a * h / 2) ^ 2 * u),
+         maxAbs (us.map (fun u => (1 + a * h) * u - (1 + a * h / 2) ^ 2 * u))) := by
+  unfold eulerRichardson richardson
+  simp only
+  rw [zipWith_map_map]
+  have e1 : (fun u => eulerVar (linear a) (eulerVar (linear a) u t (((1 : Nat) : ℝ) / ((2 : Nat) : ℝ) * h))
+        (t + ((1 : Nat) : ℝ) / ((2 : Nat) : ℝ) * h) (((1 : Nat) : ℝ) / ((2 : Nat) : ℝ) * h))
+      = fun u => (1 + a * h / 2) ^ 2 * u := by
+    funext u; simp only [eulerVar, linear]; push_cast; ring
+  have e2 : (fun u => eulerVar (linear a) u t h
+        - eulerVar (linear a) (eulerVar (linear a) u t (((1 : Nat) : ℝ) / ((2 : Nat) : ℝ) * h))
+          (t + ((1 : Nat) : ℝ) / ((2 : Nat) : ℝ) * h) (((1 : Nat) : ℝ) / ((2 : Nat) : ℝ) * h))
+      = fun u => (1 + a * h) * u - (1 + a * h / 2) ^ 2 * u := by
+    funext u; simp only [eulerVar, linear]; push_cast; ring
+  rw [e1, e2]
+
+theorem adaptiveLoop_richardson_global_error (C : Ctl ℝ) (a t0 tEnd : ℝ) (u0s : List ℝ) (ha : a ≤ 0)
+    (htol : 0 < C.tol) (hmin : 0 < C.dtMin) :
+    ∀ (fuel : Nat) (s r : AState ℝ),
+      List.Forall₂ (fun u u0 => |u - exp (a * (s.t - t0)) * u0| ≤ (s.steps : ℝ) * C.tol) s.us u0s →
+      adaptiveLoop C (eulerRichardson (linear a)) tEnd fuel s = .done r →
+      List.Forall₂ (fun u u0 => |u - exp (a * (r.t - t0)) * u0| ≤ (r.steps : ℝ) * C.tol) r.us u0s := by
+  intro fuel
+  induction fuel with
+  | zero => intro s r _ h; simp [adaptiveLoop] at h
+  | succ n ih =>
+    intro s r hcells h
+    unfold adaptiveLoop at h
+    simp only at h
+    set hstep := dtStep C s.dtOpt tEnd s.t with hstep_def
+    have hh : 0 ≤ hstep := le_trans hmin.le (dtStep_bounds C s.dtOpt tEnd s.t).1
+    rw [eulerRichardson_linear] at h
+    simp only at h
+    generalize hE : maxAbs (List.map (fun u => (1 + a * hstep) * u - (1 + a * hstep / 2) ^ 2 * u) s.us)
+      / C.tol = errRel at h
+    by_cases hacc : errRel ≤ ((1 : Nat) : ℝ)
+    · simp only [hacc, decide_true, ↓reduceIte] at h
+      have hcellacc : ∀ u ∈ s.us, |(1 + a * hstep) * u - (1 + a * hstep / 2) ^ 2 * u| ≤ C.tol := by
+        intro u hu
+        have hm : (1 + a * hstep) * u - (1 + a * hstep / 2) ^ 2 * u ∈
+            List.map (fun u => (1 + a * hstep) * u - (1 + a * hstep / 2) ^ 2 * u) s.us :=
+          List.mem_map.mpr ⟨u, hu, rfl⟩
+        exact accepted_cells_le_tol _ C.tol htol (by rw [hE]; exact hacc) _ hm
+      have hnew : List.Forall₂ (fun u u0 => |u - exp (a * (s.t + hstep - t0)) * u0|
+            ≤ ((s.steps + 1 : Nat) : ℝ) * C.tol)
+          (s.us.map (fun u => (1 + a * hstep / 2) ^ 2 * u)) u0s := by
+        rw [List.forall₂_map_left_iff]
+        refine (forall₂_and_mem _ _ _ _ hcells hcellacc).imp ?_
+        intro u u0 ⟨h1, h2⟩
+        exact euler_cell_step a hstep s.t t0 C.tol u u0 s.steps ha hh h1 h2
+      split_ifs at h with hcont
+      · split at h
+        · exact ih _ _ (by exact hnew) h
+        · simp at h
+      · simp only [AOut.done.injEq] at h
+        subst h
+        exact hnew
+    · simp only [hacc, decide_false, Bool.false_eq_true, ↓reduceIte] at h
+      split_ifs at h with hcont
+      · split at h
+        · exact ih _ _ (by exact hcells) h
+        · simp at h
+      · simp only [AOut.done.injEq] at h
+        subst h
+        exact hcells
+
+/-- **generic adaptive loop with the Euler step-doubling estimate (a plain `AdaptiveSolverBase`)
+on `u' = a u`, `a ≤ 0`**: global error ≤ accepted steps × tolerance -/
+theorem adaptive_richardson_model_global_error (C : Ctl ℝ) (a : ℝ) (ha : a ≤ 0) (htol : 0 < C.tol)
+    (hmin : 0 < C.dtMin) (fuel : Nat) (us : List ℝ) (tStart tEnd dt0 : ℝ) (r : AState ℝ)
+    (h : adaptiveStepper C (eulerRichardson (linear a)) fuel us tStart tEnd dt0 = .done r) :
+    List.Forall₂ (fun u u0 => |u - exp (a * (r.t - tStart)) * u0| ≤ (r.steps : ℝ) * C.tol) r.us us := by
+  refine adaptiveLoop_richardson_global_error C a tStart tEnd us ha htol hmin fuel _ r ?_ h
+  simp only [sub_self, mul_zero, exp_zero, one_mul, Nat.cast_zero, zero_mul]
+  exact List.forall₂_same.mpr (fun _ _ => by simp)
+
+end richardsonGlobal
+
+/-- the Adams-Bashforth stepper keeps its previous state: after any call `prev` is set, so only
+the first call of a stepper initialises it -/
+theorem ab2Stepper_persistent {K : Type} [Field K] [LinearOrder K] [IsStrictOrderedRing K] [FloorRing K]
+    (T : AB2Tab K) (f : Rate K) (dt ts te : K) (s s' : AB2State K) (t : K)
+    (h : ab2Stepper T f dt ts te s = some (s', t)) : s'.prev.isSome = true := by
+  unfold ab2Stepper at h
+  simp only at h
+  split at h
+  · simp at h
+  · simp only [Option.some.injEq, Prod.mk.injEq] at h
+    rw [← h.1]; rfl
+
 /-! ## constants of the step-size controller (extracted) -/
 
 section controller
